@@ -5,8 +5,11 @@ Steps: scratch copy of /repo HEAD; demo passes without the patch; with the patch
 suite still passes and the demo fails; then the quick checks are run against the patched copy."""
 import json, os, subprocess, sys, shutil, re
 prop, var = sys.argv[1], sys.argv[2]
-checks = sys.argv[3:] or ["C%02d" % i for i in range(1, 19)]
+args = sys.argv[3:]
 src = f"/tmp/seed/{prop}/SEED/{var}"
+if "--src" in args:
+    i = args.index("--src"); src = args[i + 1]; del args[i:i + 2]
+checks = args or ["C%02d" % i for i in range(1, 19)]
 sid = f"{prop}-{var}"
 W = f"/tmp/mut/imp-{sid}"
 shutil.rmtree(W, ignore_errors=True); os.makedirs(W); os.makedirs('/tmp/mut/shared', exist_ok=True)
@@ -38,6 +41,11 @@ if demo_ok_without and demo_fails_with and suite_ok:
     os.makedirs(out, exist_ok=True)
     for f in ("patch.diff", "demo.rs", "notes.md"):
         shutil.copy(f"{src}/{f}", f"{out}/{f}")
+    if os.path.exists(f"{src}/demo.sh"):
+        shutil.copy(f"{src}/demo.sh", f"{out}/demo.sh")
+    if os.path.isdir(f"{src}/fixture"):
+        shutil.rmtree(f"{out}/fixture", ignore_errors=True)
+        shutil.copytree(f"{src}/fixture", f"{out}/fixture")
     notes = open(f"{src}/notes.md").read()
     meta = {"id": sid, "breaks_property": prop, "source": "independent sub-agent given only the property text and a scratch worktree",
             "needs_to_manifest": notes.split("\n\n")[0][:1500],
